@@ -300,8 +300,56 @@ def add(fam, name, K, call, unwind, accept=True, tier="quick"):
     full = fam + "__" + name
     assert full not in _names, full
     _names.add(full)
+    tier = retier(fam, name, tier)
     HARNESSES.append(dict(name=full, family=fam, K=max(K, 1), unwind=unwind, call=call,
                           accept=accept, tier=tier))
+
+
+QUICK_RULES = {
+    # family: regexes (fullmatch on the harness's short name) that stay in the quick tier.  The quick
+    # tier is sized for ~8 min wall per property on 16 cores at the measured ~60 s of CPU per harness
+    # under load (see README); everything else the generator enumerates is thorough.
+    "c05_fixed": [r".*"],
+    "c05_header": [r"e(\d)_s\1_c0_m0", r"e1_s8_c1_m1", r"e8_s1_c1_m1", r"e2_s4_c1_m0", r"e4_s2_c0_m1"],
+    "c05_var": [r"(flow|msg)[012]", r"fsreq(00|12|21|22)", r"fsresp(000|102|021|222)", r"unseg[012]_[sl]",
+                r"seg1_1_s[0123]_s", r"seg(0_1|2_1|1_0|2_2)_s3_[sl]"],
+    "c05_userops": [r"(origtx|respstatus|respresume|respsuspend|reqsuspend|reqresume)_(1_1|2_2|4_4|8_8|1_8|8_1)",
+                    r"reqstatus_(1_1|2_2|4_4|8_8|1_8|8_1)_\d", r"proxyput_.*", r"respproxyput",
+                    r"(resp|req)dirlist_(0_0|1_2|2_2)", r"dec_proxysegctrl", r"dec_sforeport_(0_1_1_1|2_8_4_2)",
+                    r"dec_sforequest_(0_1_1_0_0|1_2_4_1_1)"],
+    "c05_report": [r"e(\d)_s\1", r"e1_s8", r"e8_s1"],
+    "c05_wrap": [r"tlv_eid\d"],
+    "c06_arith": [r".*"],
+    "c06_types": [r"uo_(origtx|respstatus|respresume|respsuspend|reqsuspend|reqresume)_(1_1|8_8|2_4)",
+                  r"uo_reqstatus_.*", r"uo_proxyput_(1_1_2|8_1_2|1_0_0)", r"uo_proxysegctrl", r"uo_respproxyput",
+                  r"uo_(resp|req)dirlist_(0_0|1_2)", r"uo_sforeport_(0_1_1_1|2_2_4_8)",
+                  r"uo_sforequest_(0_1_1_0_0|1_2_4_1_1)", r"uo_origtx_badwidth_3_1", r"uo_respresume_badwidth_1_5",
+                  r"uo_proxyput_badwidth_[09]", r"uo_reqdirlist_overlong", r"uo_sfore(port|quest)_badwidth",
+                  r"fsreq_(00|12|22|overlong)", r"fsresp_(000|102|222|overlong)", r"(flow|msg)_[012]", r"varid_w\d",
+                  r"varid_badwidth_(02|08|fe)", r"report_e(\d)_s\1", r"report_badwidth", r"hdr_e(\d)_s\1_c0_m0",
+                  r"free_(flow|msg)"],
+    "c06_canon_eof": [r"noerr(_trail2)?_[sl]", r"err_w\d_s", r"err_w8_l", r"err_w2_trail1_s"],
+    "c06_bytes_eof": [r"err_tlvtype_0[13]_s", r"err_badwidth_(02|ff)_s", r"err_badwidth_ff_l", r"trunc_err_w8_s"],
+    "c06_canon_small": [r".*"],
+    "c06_canon_nak": [r"n[012]_s", r"n1_l"],
+    "c06_bytes_nak": [r"trunc_n1_s"],
+    "c06_canon_filedata": [r"unseg[012]_s", r"unseg1_l", r"seg1_1_s[0123]_s", r"seg2_0_s1_s", r"seg0_2_s1_l"],
+    "c06_bytes_filedata": [r"trunc_(unseg2|seg2_1)_s"],
+    "c06_dispatch": [r"pdu_crc_lenfield_[01]"],
+}
+
+
+def retier(fam, name, tier):
+    """Quick tier = whitelist above; codecs that iterate over a Vec of structs / enums (Finished
+    with responses, MetadataPDU) and the enum dispatch layers cost minutes per shape under Kani and
+    are thorough-tier only (measured, see README)."""
+    import re as _re
+    if tier != "quick":
+        return tier
+    for rx in QUICK_RULES.get(fam, []):
+        if _re.fullmatch(rx, name):
+            return "quick"
+    return "thorough"
 
 
 def unwind_for(n, npins=0):
